@@ -150,6 +150,19 @@ pub fn exec(toks: &[&str]) -> String {
             },
             _ => "bad-op".into(),
         },
+        ["hdir", uh] => match https(uh) {
+            Some(u) => {
+                let mut v = u.clone();
+                v.path_into_dir();
+                format!("ok {} {} {} {} {}", hex(v.as_slice()), reparse_h(&v), u.path_is_dir(), v.path_is_dir(),
+                    hex(u.canonical_authority().as_bytes()))
+            }
+            None => "bad-op".into(),
+        },
+        ["racc", uh, xh] => match (rsync(uh), unhex(xh).and_then(|x| String::from_utf8(x).ok())) {
+            (Some(u), Some(x)) => format!("ok {} {}", hex(u.canonical_authority().as_bytes()), u.ends_with(&x)),
+            _ => "bad-op".into(),
+        },
         ["hparent", uh] => match https(uh) {
             Some(u) => match u.parent() {
                 Some(v) => format!("ok {} {}", hex(v.as_slice()), reparse_h(&v)),
@@ -294,6 +307,7 @@ pub fn generate(ctx: &mut Ctx) {
     let hargs = all_strings(b"aA/.", 3);
     for u in &acc_h {
         ctx.case(&format!("hparent {}", hex(u)));
+        ctx.case(&format!("hdir {}", hex(u)));
         for a in &hargs {
             ctx.case(&format!("hjoin {} {}", hex(u), hex(a)));
         }
@@ -309,6 +323,7 @@ pub fn generate(ctx: &mut Ctx) {
             ctx.case(&format!("hjoin {} {}", hex(u.as_bytes()), hex(a.as_bytes())));
         }
         ctx.case(&format!("hparent {}", hex(u.as_bytes())));
+        ctx.case(&format!("hdir {}", hex(u.as_bytes())));
         for o in ["https://example.com", "https://EXAMPLE.com", "https://example.com/A", "https://example.com/a"] {
             ctx.case(&format!("heq {} {}", hex(u.as_bytes()), hex(o.as_bytes())));
         }
@@ -321,6 +336,13 @@ pub fn generate(ctx: &mut Ctx) {
         ctx.case(&format!("rsync {}", hex(&r)));
         if let Ok(u) = Rsync::from_slice(&r) {
             ctx.case(&format!("rparent {}", hex(&r)));
+            {
+                // an extension: the end of the path itself, a longer one, another one
+                let p = u.path().as_bytes();
+                let k = (rng.below(6) as usize).min(p.len());
+                let x: Vec<u8> = match rng.below(4) { 0 => b".cer".to_vec(), 1 => { let mut y = b"x".to_vec(); y.extend_from_slice(p); y }, _ => p[p.len() - k..].to_vec() };
+                ctx.case(&format!("racc {} {}", hex(&r), hex(&x)));
+            }
             let arg: Vec<u8> = {
                 let n = rng.below(4);
                 let mut a = Vec::new();
@@ -350,6 +372,7 @@ pub fn generate(ctx: &mut Ctx) {
         ctx.case(&format!("https {}", hex(&hh)));
         if Https::from_slice(&hh).is_ok() && rng.chance(1, 4) {
             ctx.case(&format!("hparent {}", hex(&hh)));
+            ctx.case(&format!("hdir {}", hex(&hh)));
             ctx.case(&format!("hjoin {} {}", hex(&hh), hex(b"x/y")));
         }
     }
